@@ -1326,7 +1326,9 @@ def run(chk: Check) -> None:
         "leaf-similarity thresholds are compared as exact rationals (0.8=4/5, 0.4=2/5, t=p/q); equal to the float comparison for fewer than 2^50 leaves",
         "set iteration order is not modelled: matching sets and edit scripts are compared as sorted multisets",
         "theorems assume what diff() establishes by copying: node ids unique within and across the two trees; caller matchings injective, inside the trees, on non-identifier nodes",
-        "diff()'s copy path and hash-cache handling are covered by the search oracle only",
+        "diff()'s wrapper is modelled on an arena (Wrapper.runDiff) with its shape extracted by the translator; compute_node_mappings (matchings translated to the copies) is covered by the search oracle only",
+        "DiceOk (0<=dice<=1, equal rendered text => 1, dice(a,a)=1, symmetry sampled) and EqcCongr (structural congruence of Expr.__eq__) are axiomatisations validated on every shipped pair, not proved",
+        "Tree.wf (distinct objects, leaves of a node distinct and reachable, children know their parent and come later in BFS order, root is the only parentless node) is checked by the driver on every shipped tree and assumed by the tree-level theorems",
     ]
     chk.write_generated(translate(chk))
     proved = chk.prove(MODULES, "Properties.C20", THEOREMS)
